@@ -92,8 +92,9 @@ def build(cls, mask, img, uncond, ctx, seed, libnet=False, bounded=False):
     def create(i, o):
         if libnet:
             if img:
-                return nets.ConvResidualNet(i, o, hidden_channels=4, num_blocks=1)
-            return nets.ResidualNet(i, o, hidden_features=6, context_features=ctx, num_blocks=1)
+                return nets.ConvResidualNet(i, o, hidden_channels=4, num_blocks=1, dropout_probability=0.3)
+            # (with dropout: inactive in evaluation mode, where the layer is checked)
+            return nets.ResidualNet(i, o, hidden_features=6, context_features=ctx, num_blocks=1, dropout_probability=0.3)
         return make_mixnet(torch, i, o, img, ctx, seed)
 
     ishape = [H, W] if img else None
@@ -239,6 +240,31 @@ def check_state(st, cls, ctx, seed, libnet=False):
             if not torch.equal(bits(y[:, i]), bits(x[:, i])):
                 fails.append(dict(case, clause="identity_not_bitwise", detail="identity feature %d (mask %d) is not returned bit-for-bit: %s -> %s" % (i, mask[i], x[:, i].flatten()[:4].tolist(), y[:, i].flatten()[:4].tolist())))
                 break
+    # (1r) library conditioner (built with dropout), evaluation mode: the transformed features are a function of
+    # the inputs and the context - the same call again gives the same result
+    if libnet and not bounded and cls != "UMNN":
+        with torch.no_grad():
+            y_again = f(x.clone(), c)[0]
+        n += 1
+        if not torch.equal(bits(y_again), bits(y)):
+            fails.append(dict(case, clause="dependency", detail="evaluation mode, conditioner with dropout: the same call twice gives outputs that differ by %.3g (the transformed features are not a function of identity features and context)" % float((y_again - y).abs().max())))
+    # (1a'') image inputs in another dense memory layout (height and width swapped in memory, same values):
+    # the same result, identity features bit for bit.  (Library conditioner: convolutional, any image size.)
+    if img and libnet and not bounded and cls != "UMNN":
+        x2 = torch.rand((3, D, 2, 3), generator=g) * 1.2 - 0.6
+        x2.view(-1)[::4] = -0.0
+        xs = x2.permute(0, 1, 3, 2).contiguous().permute(0, 1, 3, 2)
+        try:
+            with torch.no_grad():
+                y2 = f(x2.clone(), c)[0]
+                ys = f(xs, c)[0]
+        except Exception as e:  # noqa
+            y2 = ys = None
+        if ys is not None:
+            n += 1
+            ok_id = uncond or all(torch.equal(bits(ys[:, i]), bits(x2[:, i])) for i in ident)
+            if not ok_id or ys.shape != y2.shape or not torch.allclose(ys, y2, rtol=1e-5, atol=1e-6, equal_nan=True):
+                fails.append(dict(case, clause="identity_not_bitwise" if not ok_id else "layout", detail="image input whose height and width are swapped in memory (same values): %s" % ("identity features are not returned bit for bit" if not ok_id else "outputs differ from those for the contiguous input by %.3g" % float((ys - y2).abs().max()))))
     # (1a') double-precision data through a layer whose conditioner computes in single precision (and handles the
     # casts itself): the identity features still come back bit for bit, in the data's dtype
     if not libnet and not uncond and not bounded and cls != "UMNN":
